@@ -72,8 +72,9 @@ var legacySkipped = map[string]string{
 	"client/includes": "loads further files from the file system",
 }
 
-// guarded settings that are honoured only together with their guard at the pinned commit (recorded, reported)
-var legacyNeedsGuard = map[string]bool{"server/pprof_enable": true}
+// guarded settings that are honoured only together with their guard: none (server/pprof_enable was one until
+// the repair e9a3b1f); a guarded setting that is ignored without its guard is an alarm
+var legacyNeedsGuard = map[string]bool{}
 
 type legacyLoader func(path string) (any, error)
 
